@@ -95,8 +95,8 @@ def _ansatz(p, d, p_th, nu, A, B, C):
     return A + B * x + C * x * x
 
 
-def _n_fail(f):
-    return int(math.floor(f * N_TRIALS + 0.5))
+def _n_fail(f, N=N_TRIALS):
+    return int(math.floor(f * N + 0.5))
 
 
 def _file_orders(k):
@@ -147,11 +147,17 @@ def cases(tier, seed):
                     i += 1
         lat = sel
     out = []
-    for c in lat:
-        c = dict(c)
-        perms = _file_orders(len(c['ds']))[:n_orders]
-        c['orders'] = [[perm, j % 3] for j, perm in enumerate(perms)]
-        out.append(c)
+    for idx, c in enumerate(lat):
+        variants = ['equal', 'unequal'] if tier == 'thorough' else [['equal', 'unequal'][idx % 2]]
+        for var in variants:
+            c = dict(c)
+            perms = _file_orders(len(c['ds']))[:n_orders]
+            c['orders'] = [[perm, j % 3] for j, perm in enumerate(perms)]
+            c['trial_counts'] = var
+            if var == 'unequal':
+                # data points with different trial counts (the per-point counts enter the bootstrap)
+                c['n_by_d'] = [4000, 2000, 1000] if len(c['ds']) == 3 else [4000, 3000, 2000, 1000]
+            out.append(c)
     out.sort(key=lambda c: (len(c['ds']), c['nrates']))
     return out
 
@@ -175,7 +181,7 @@ def _template(cls, d, ps, path):
         return json.load(f)
 
 
-def _plant(rec, nf):
+def _plant(rec, nf, N_TRIALS=N_TRIALS):
     r = rec['results']
     k = rec['inputs']['code']['k']
     if sorted(r) != ['codespace', 'effective_error', 'n_runs', 'success', 'wall_time'] \
@@ -194,7 +200,7 @@ def _key(case, kind, **kw):
         kw.pop('row_shuffle', None)
     k = {'kind': kind, 'p_th': round(case['p_th'], 4), 'nu': round(case['nu'], 3), 'A': round(case['A'], 3),
          'B': round(case['B'], 3), 'C': round(case['C'], 3), 'distances': list(case['ds']),
-         'n_rates': case['nrates']}
+         'n_rates': case['nrates'], 'trial_counts': case.get('trial_counts', 'equal')}
     k.update(kw)
     return k
 
@@ -232,8 +238,7 @@ def eval_case(case):
     V = []
     p_th, nu, A, B, C = case['p_th'], case['nu'], case['A'], case['B'], case['C']
     ds = case['ds']
-    if case['n_trials'] != N_TRIALS:
-        raise AssertionError('case written for another trial count')
+    Nd = dict(zip(ds, case.get('n_by_d') or [N_TRIALS] * len(ds)))
     ps = _rates(p_th, case['half'], case['nrates'])
     p_lo, p_hi = min(ps), max(ps)
     table = {}
@@ -250,15 +255,15 @@ def eval_case(case):
                     raise AssertionError('code.d = %r for planted distance %d' % (rec['inputs']['code']['d'], d))
                 p = rec['inputs']['error_rate']
                 f = _ansatz(p, d, p_th, nu, A, B, C)
-                nf = _n_fail(f)
-                if not 0 < nf < N_TRIALS:
+                nf = _n_fail(f, Nd[d])
+                if not 0 < nf < Nd[d]:
                     raise AssertionError('planted rate outside (0,1)')
-                _plant(rec, nf)
+                _plant(rec, nf, Nd[d])
                 table[(d, round(p, 6))] = nf
             os.remove(os.path.join(sb, 'tmpl_%d.json' % d))
             records.append(data)
         # non-triviality: the extreme distances cross inside the window, each distance has >= 3 counts
-        dif = [table[(ds[-1], p)] - table[(ds[0], p)] for p in (p_lo, p_hi)]
+        dif = [table[(ds[-1], round(p, 6))] / Nd[ds[-1]] - table[(ds[0], round(p, 6))] / Nd[ds[0]] for p in (p_lo, p_hi)]
         crossing = dif[0] * dif[1] < 0
         varied = all(len({table[(d, p)] for p in ps}) >= 3 for d in ds)
         res['nontrivial'] = int(crossing and varied)
@@ -308,7 +313,7 @@ def eval_case(case):
                 misread = len(obs['points']) != len(table)
                 for d, p, pe, x in obs['points']:
                     want = table.get((d, round(p, 6)))
-                    if want is None or abs(pe - want / N_TRIALS) > 1e-12:
+                    if want is None or abs(pe - want / Nd[d]) > 1e-12:
                         misread = True
                         continue
                     resid = max(resid, abs(_ansatz(p, d, *fp) - pe))
